@@ -309,3 +309,62 @@ func c06Real(c *Ctx, r *Rng, prop string) {
 		}
 	}
 }
+
+// c06Concat: tq's batch.Concat (through the verif-only export) against TQConcat.concat: which objects go
+// into the next batch, which have to wait — ready times clearly before / after now, sizes around the counts.
+func c06Concat(c *Ctx, r *Rng) {
+	n := c.N(400, 10000)
+	var lines, impl []string
+	for i := 0; i < n; i++ {
+		mk := func(k int) []int64 {
+			var o []int64
+			for j := 0; j < k; j++ {
+				o = append(o, Pick(r, []int64{-5000, -5000, -900, 900, 4000, 60000}))
+			}
+			return o
+		}
+		b, other := mk(r.Intn(5)), mk(r.Intn(6))
+		size := Pick(r, []int{0, 1, 2, 3, 100})
+		l, rt := tq.VerifConcat(b, other, size)
+		item := func(base int, offs []int64) string {
+			var t []string
+			for j, o := range offs {
+				t = append(t, fmt.Sprintf("%d:%d", base+j, o))
+			}
+			return joinOrDash(t)
+		}
+		sh := func(x []int) string {
+			var t []string
+			for _, v := range x {
+				t = append(t, fmt.Sprint(v))
+			}
+			return joinOrDash(t)
+		}
+		line := fmt.Sprintf("C06 concat 0 %d %s %s", size, item(0, b), item(len(b), other))
+		lines = append(lines, line)
+		impl = append(impl, sh(l)+"|"+sh(rt))
+		c.R.Eval(line, len(b)+len(other) > size)
+		c.R.Count("concat")
+		// the property's side, on the implementation alone: nothing lost, nothing twice
+		seen := map[int]int{}
+		for _, v := range append(append([]int(nil), l...), rt...) {
+			seen[v]++
+		}
+		for j := 0; j < len(b)+len(other); j++ {
+			if seen[j] != 1 {
+				c.R.Add(Finding{Kind: "oracle", What: "batch.Concat lost or duplicated an object between the next batch and the remainder", Case: line, Impl: sh(l) + "|" + sh(rt)})
+				break
+			}
+		}
+	}
+	ans, err := c.Or.Ask(lines)
+	if err != nil {
+		c.R.Add(Finding{Kind: "diff", What: "oracle process failed: " + err.Error(), Broken: "corr.C06.concat"})
+		return
+	}
+	for i := range lines {
+		if ans[i] != impl[i] {
+			c.R.Add(Finding{Kind: "diff", What: "batch.Concat: model and implementation disagree", Case: lines[i], Impl: impl[i], Model: ans[i], Broken: "corr.C06.concat"})
+		}
+	}
+}
